@@ -295,17 +295,35 @@ class ModuleFinder:
             filepath (Path): A submodule filepath.
         """
         if isinstance(path, list):
-            # We never enter this condition again in recursive calls,
-            # so we just have to set `seen` once regardless of its value.
-            seen = set()
+            # Like Python, a regular subpackage (a folder with an `__init__` module) is provided
+            # by a single portion, the first one in which Python can reach it, and it shadows
+            # the same folder of all the other portions, the previous ones included:
+            # scan all the portions first, then decide which portion provides which folder, top-down.
+            submodules = [(path_elem, *sub) for path_elem in path for sub in self.iter_submodules(path_elem)]
+            providers: dict[tuple[str, ...], Path] = {}
+
+            def init_module(filepath: Path) -> bool:
+                return filepath.name.split(".", 1)[0] == "__init__"
+
+            def shadowed(path_elem: Path, folders: tuple[str, ...]) -> bool:
+                depths = range(1, len(folders) + 1)
+                return any(providers.get(folders[:depth], path_elem) != path_elem for depth in depths)
+
+            # The sort is stable: for a same folder, the first portion wins.
+            for path_elem, name_parts, filepath in sorted(submodules, key=lambda submodule: len(submodule[1])):
+                # Stubs do not make a folder a regular package for Python.
+                if init_module(filepath) and filepath.suffix != ".pyi" and not shadowed(path_elem, name_parts[:-1]):
+                    providers.setdefault(name_parts, path_elem)
+
             # Like Python, only use the first module of the same name found in different portions
             # (a module and its stubs do not compete: they are merged together later).
             found: dict[tuple[tuple[str, ...], str], Path] = {}
-            for path_elem in path:
-                for name_parts, filepath in self.iter_submodules(path_elem, seen):
-                    key = (name_parts, filepath.suffix)
-                    if key[1] not in {".py", ".pyi"} or found.setdefault(key, path_elem) == path_elem:
-                        yield name_parts, filepath
+            for path_elem, name_parts, filepath in submodules:
+                key = (name_parts, filepath.suffix)
+                if shadowed(path_elem, name_parts if init_module(filepath) else name_parts[:-1]):
+                    logger.debug("Skip %s, another module took precedence", filepath)
+                elif key[1] not in {".py", ".pyi"} or found.setdefault(key, path_elem) == path_elem:
+                    yield name_parts, filepath
             return
 
         if path.stem == "__init__":
